@@ -277,7 +277,9 @@ def seq_strategy():
 
 
 def shards(tier, seed):
-    out = [dict(kind='degenerate')]
+    out = [dict(kind='degenerate'),
+           dict(kind='model-order', seed=seed * 1000 + 90,
+                n=24 if tier == 'quick' else 200)]
     for k in range(8):
         out.append(dict(kind='orders', seed=seed * 1000 + 50 + k,
                         n=2 if tier == 'quick' else 40))
@@ -290,6 +292,20 @@ def shards(tier, seed):
 def run_shard(shard, rec):
     if shard['kind'] == 'degenerate':
         check_degenerate(rec)
+    elif shard['kind'] == 'model-order':
+        from vlib import purity
+        specs = []
+
+        def collect(spec):
+            specs.append(spec)
+            return None
+        hyp.search(rec, wbspec.specs(max_formulas=8), collect, shard['n'],
+                   shard['seed'], max_rounds=1, shrink=False)
+        # (sorted by size: every workbook follows a smaller one in one order
+        # and a larger one in the other)
+        specs.sort(key=lambda sp: (len(sp['sheets'][wbspec.SHEET]),
+                                   repr(sp['sheets'])))
+        purity.model_order_independence(rec, specs, ID)
     elif shard['kind'] == 'hyp':
         strategy = st.tuples(
             wbspec.specs(with_computed=True,
@@ -326,6 +342,10 @@ def run_shard(shard, rec):
 
 
 def replay(case, rec):
+    if isinstance(case, dict) and case.get('kind') == 'model-order':
+        from vlib import purity
+        purity.model_order_independence(rec, case['specs'], ID)
+        return
     if isinstance(case, dict) and case.get('kind') == 'degenerate':
         check_degenerate(rec)
         return
